@@ -8,6 +8,7 @@ package c16
 import (
 	"time"
 
+	"verif/mc/checks/brig"
 	"verif/mc/engine"
 )
 
@@ -35,6 +36,7 @@ func init() {
 			{Name: "returns", Run: runReturns},
 			{Name: "callhist", Run: runCallHist},
 			{Name: "alias", Run: runAlias},
+			{Name: "kindtwins", Run: func(r *engine.Run) { brig.RunKindTwins(r, true) }},
 			{Name: "histories", Run: runHistories},
 			{Name: "lethal", Run: runLethal},
 		},
